@@ -164,6 +164,8 @@ fn triples(n: u32, es: u32) -> BoxedStrategy<(u32, u32, u32)> {
         1 => gen::tie_pair(n, es).prop_map(|(_, a, b)| (a, b, a)),
         1 => gen::result_pair(n, es).prop_map(|(_, a, b)| (a, b, b)),
         1 => gen::tie_triple(n, es),
+        1 => gen::near_tie_triple(n, es),
+        1 => gen::sparse_tie_triple(n, es),
     ]
     .prop_map(move |(a, b, c)| ((a << sh) as u32, (b << sh) as u32, (c << sh) as u32))
     .boxed()
@@ -200,7 +202,7 @@ pub fn run(rep: &mut Report) {
                 });
             }
         }
-        let per = tier.pick(12_000, 400_000);
+        let per = tier.pick(40_000, 400_000);
         for n in 7..=32u32 {
             rep.generated(&format!("PxE{}<{}> generated triples, all ops", es, n), per, move || triples(n, es), move |&(a, b, c), l| {
                 for op in 0..13 {
